@@ -581,6 +581,15 @@ class BuiltinMixin:
         self.dict_store(st, recv, args[0], None)
         return [Out("val", st, vnone())]
 
+    def bm_set_discard(self, st, recv, args, kwargs, node):
+        r = V.r(recv.z)
+        kz = self.to_z(st, args[0])
+        dom = st.hread("$ddom", r)
+        present = z3.Select(dom, kz)
+        st.hwrite("$dlen", r, z3.simplify(z3.If(present, st.hread("$dlen", r) - 1, st.hread("$dlen", r))))
+        st.hwrite("$ddom", r, z3.Store(dom, kz, False))
+        return [Out("val", st, vnone())]
+
     def bm_set_clear(self, st, recv, args, kwargs, node):
         return self.bm_dict_clear(st, recv, args, kwargs, node)
 
